@@ -86,7 +86,7 @@ def generate(dirname, maxlen, mode):
     for combo in enumerate_lists(maxlen):
         variants.append((combo, None))
         # the function itself may be named like a would-be generated name (arg0, arg1, _arg0)
-        if any(sy in ("wild", "tuple", "fnname", "fnname_in_newtype", "argname") for sy in combo):
+        if len(combo) <= 2 and any(sy in ("wild", "tuple", "fnname", "fnname_in_newtype", "argname") for sy in combo):
             for special in ("arg0", "arg1", "_arg0"):
                 variants.append((combo, special))
     for idx, (combo, special) in enumerate(variants):
@@ -123,6 +123,22 @@ def generate(dirname, maxlen, mode):
     return cases
 
 
+def write_chunk(cdir, srcdir, part):
+    """A crate holding only the given cases (lines re-numbered)."""
+    os.makedirs(os.path.join(cdir, "src"), exist_ok=True)
+    import shutil
+    shutil.copy(os.path.join(srcdir, "Cargo.toml"), os.path.join(cdir, "Cargo.toml"))
+    shutil.copy(os.path.join(srcdir, "Cargo.lock"), os.path.join(cdir, "Cargo.lock"))
+    lines = open(os.path.join(srcdir, "src", "lib.rs")).read().split("\n")
+    out = [HEADER.rstrip("\n")]
+    base = len(HEADER.rstrip("\n").split("\n"))
+    for k, c in enumerate(part):
+        out.append(lines[c["line"] - 1])
+        c["line"] = base + 1 + k
+    with open(os.path.join(cdir, "src", "lib.rs"), "w") as f:
+        f.write("\n".join(out) + "\n")
+
+
 def run(tier):
     rep = Report("C16", tier, "exploration")
     maxlen = 2 if tier == "quick" else 3
@@ -131,19 +147,31 @@ def run(tier):
     nontrivial = set()
     for mode in modes:
         dirname = os.path.join(CACHE, "gen", "c16_%s_%d" % (mode, maxlen))
-        cases = generate(dirname, maxlen, mode)
-        by_line = {c["line"]: c for c in cases}
-
-        def attribute(span, by_line=by_line):
-            c = by_line.get(span["line"])
-            return "m%d" % c["idx"] if c else None
-        facts, failures, wall = build_with_skips(dirname, "wit_c16", attribute=attribute, max_rounds=5)
-        crate = Crate(facts, dirname)
+        all_cases = generate(dirname, maxlen, mode)
+        # compile in chunks (one huge crate exhausts the driver's memory): each chunk is its own crate
+        CHUNK = 700
+        cases = []
+        failures = {}
         by_mod = {}
-        for exp in crate.expansions:
-            m = re.search(r"::m(\d+)", exp.module or "")
-            if m:
-                by_mod[int(m.group(1))] = exp
+        crates = {}
+        for ci in range(0, len(all_cases), CHUNK):
+            part = all_cases[ci:ci + CHUNK]
+            cdir = os.path.join(CACHE, "gen", "c16_%s_%d_chunk%d" % (mode, maxlen, ci // CHUNK))
+            write_chunk(cdir, dirname, part)
+            by_line = {c["line"]: c for c in part}
+
+            def attribute(span, by_line=by_line):
+                c = by_line.get(span["line"])
+                return "m%d" % c["idx"] if c else None
+            facts, fl, wall = build_with_skips(cdir, "wit_c16", attribute=attribute, max_rounds=5)
+            failures.update(fl)
+            crate = Crate(facts, cdir)
+            for exp in crate.expansions:
+                m = re.search(r"::m(\d+)", exp.module or "")
+                if m:
+                    by_mod[int(m.group(1))] = exp
+                    crates[int(m.group(1))] = crate
+            cases += part
         for c in cases:
             total += 1
             combo = c["combo"]
@@ -159,6 +187,7 @@ def run(tier):
             exp = by_mod.get(c["idx"])
             if exp is None:
                 raise CheckError("no expansion found for generated case m%d" % c["idx"])
+            crate = crates[c["idx"]]
             v = FnModView(crate, exp)
             if v.trait is None:
                 rep.add("W-PATTERNS", "%s patterns {%s} trait" % (mode, symset), "no trait generated for %s" % desc)
